@@ -90,8 +90,9 @@ class Check:
         ev = {"property_id": self.prop, "tier": self.tier, "seed": int(os.environ.get("VERIF_SEED", "0") or 0),
               "level": level, "coverage": cov, "assumptions": self.assumptions,
               "wall_s": round(time.time() - self.t0, 3), "violations": len(unlisted)}
-        os.makedirs(os.path.join(VERIF, "evidence"), exist_ok=True)
-        with open(os.path.join(VERIF, "evidence", self.prop + ".json"), "w") as fh:
+        edir = os.path.join(os.environ.get("NX_SCRATCH") or VERIF, "evidence")
+        os.makedirs(edir, exist_ok=True)
+        with open(os.path.join(edir, self.prop + ".json"), "w") as fh:
             json.dump(ev, fh, indent=1)
         print("%s %s: %d obligations, %d hold, %d known, %d unlisted  (%.1fs)" % (
             self.prop, self.tier, n_ob, n_ok, cov["known_findings_matched"], len(unlisted), ev["wall_s"]))
